@@ -7,6 +7,7 @@ pub mod c13;
 pub mod c16;
 pub mod c17;
 pub mod c18;
+pub mod c19;
 
 use crate::runner::{Ctx, ReplayFile};
 
@@ -26,6 +27,7 @@ pub fn lookup(id: &str) -> Option<(&'static str, RunFn, ReplayFn, &'static str, 
         "C16" => ("C16", c16::run, c16::replay, "exploration", c16::worker),
         "C17" => ("C17", c17::run, c17::replay, "exploration", c17::worker),
         "C18" => ("C18", c18::run, c18::replay, "exploration", c18::worker),
+        "C19" => ("C19", c19::run, c19::replay, "fault_enumeration", c19::worker),
         _ => return None,
     })
 }
